@@ -18,6 +18,7 @@ import (
 	"sync"
 	"sync/atomic"
 	"time"
+	"unicode/utf8"
 )
 
 var (
@@ -1382,12 +1383,22 @@ func manifestUnescape(s string) string {
 	return manifestEscapeSeq.ReplaceAllStringFunc(s, manifestUnescapeFunc)
 }
 
-var manifestEscapedChar = regexp.MustCompile(`[\000-\040:\s\\]`)
-
-func manifestEscapeFunc(seq string) string {
-	return fmt.Sprintf("\\%03o", byte(seq[0]))
-}
-
+// manifestEscape escapes every byte that may not appear literally in
+// a manifest token: control codes and space (0x00-0x20), DEL (0x7f),
+// ':' and '\\', and bytes that are not part of a valid UTF-8 sequence
+// (a manifest is UTF-8 text).
 func manifestEscape(s string) string {
-	return manifestEscapedChar.ReplaceAllStringFunc(s, manifestEscapeFunc)
+	var b strings.Builder
+	for i := 0; i < len(s); {
+		c := s[i]
+		r, size := utf8.DecodeRuneInString(s[i:])
+		if c <= 0x20 || c == 0x7f || c == ':' || c == '\\' || (r == utf8.RuneError && size == 1) {
+			fmt.Fprintf(&b, "\\%03o", c)
+			i++
+			continue
+		}
+		b.WriteString(s[i : i+size])
+		i += size
+	}
+	return b.String()
 }
